@@ -994,10 +994,10 @@ func (p *wat2X64Worker) buildFunc_ins(
 						k,
 					)
 				} else {
-					fmt.Fprintf(w, "    movss xmm4, dword ptr [rbp%+d]\n",
+					fmt.Fprintf(w, "    movss xmm15, dword ptr [rbp%+d]\n",
 						p.fnWasmR0Base-argList[k]*8-8,
 					)
-					fmt.Fprintf(w, "    movss dword ptr [rsp%+d], xmm4\n",
+					fmt.Fprintf(w, "    movss dword ptr [rsp%+d], xmm15\n",
 						arg.RSPOff,
 					)
 				}
@@ -1009,10 +1009,10 @@ func (p *wat2X64Worker) buildFunc_ins(
 						k,
 					)
 				} else {
-					fmt.Fprintf(w, "    movsd xmm4, qword ptr [rbp%+d]\n",
+					fmt.Fprintf(w, "    movsd xmm15, qword ptr [rbp%+d]\n",
 						p.fnWasmR0Base-argList[k]*8-8,
 					)
-					fmt.Fprintf(w, "    movsd qword ptr [rsp%+d], xmm4\n",
+					fmt.Fprintf(w, "    movsd qword ptr [rsp%+d], xmm15\n",
 						arg.RSPOff,
 					)
 				}
@@ -1196,10 +1196,10 @@ func (p *wat2X64Worker) buildFunc_ins(
 						k,
 					)
 				} else {
-					fmt.Fprintf(w, "    movss xmm4, dword ptr [rbp%+d]\n",
+					fmt.Fprintf(w, "    movss xmm15, dword ptr [rbp%+d]\n",
 						p.fnWasmR0Base-argList[k]*8-8,
 					)
-					fmt.Fprintf(w, "    movss dword ptr [rsp%+d], xmm4\n",
+					fmt.Fprintf(w, "    movss dword ptr [rsp%+d], xmm15\n",
 						arg.RSPOff,
 					)
 				}
@@ -1211,10 +1211,10 @@ func (p *wat2X64Worker) buildFunc_ins(
 						k,
 					)
 				} else {
-					fmt.Fprintf(w, "    movsd xmm4, qword ptr [rbp%+d]\n",
+					fmt.Fprintf(w, "    movsd xmm15, qword ptr [rbp%+d]\n",
 						p.fnWasmR0Base-argList[k]*8-8,
 					)
-					fmt.Fprintf(w, "    movsd qword ptr [rsp%+d], xmm4\n",
+					fmt.Fprintf(w, "    movsd qword ptr [rsp%+d], xmm15\n",
 						arg.RSPOff,
 					)
 				}
